@@ -17,8 +17,10 @@ EXCL = {}
 
 # Program-level finding ids by how they manifest.  Engines pick the groups that can
 # affect their oracle; a new finding added here reaches every engine at once.
-RAISES = ("KF-layout-drift-over-shuffle", "KF-minmax-empty", "KF-setitem-int-with-negstep", "KF-layout-drift-over-window-reduction")  # graph build / compute raises, graph not closed, or wrong block shapes
-VALUES = ("KF-pad-wide", "KF-tensordot-int-dtype", "KF-argext-ties-axis-none")  # computes, but differs from NumPy
+# KF-pad-wide advertises a larger shape than it produces: whatever is stacked on it (a contraction, a
+# concatenate) fails to unify chunks or produces blocks of other shapes than advertised
+RAISES = ("KF-layout-drift-over-shuffle", "KF-minmax-empty", "KF-setitem-int-with-negstep", "KF-layout-drift-over-window-reduction", "KF-pad-wide")  # graph build / compute raises, graph not closed, or wrong block shapes
+VALUES = ("KF-tensordot-int-dtype", "KF-argext-ties-axis-none")  # computes, but differs from NumPy
 ALL = RAISES + VALUES
 
 
